@@ -1,3 +1,4 @@
+import Pocket.Lemmas.FromSourceConsts
 import Pocket.Lemmas.Layout
 /-
 C19 — constructors yield faithful well-formed values or an error, never truncation.
@@ -198,5 +199,15 @@ example :
       [[], [[]], [[100], [120, 0], []]], [104, 105]⟩
     (eventFromRec e (List.replicate 180 170)).isOk = true ∧ eventDecode (encodeEvent e) = .ok e := by
   decide +kernel
+
+/-! ### tie to the source text: what /repo says now (translated on every run by `lib/srcfacts.py`) is what the model says -/
+
+/-- `encode_utf8`'s length classes and tag bits as `utf8.rs` names them: at each class boundary the model's encoder changes
+length, and the first code point of each class is written with exactly the source's tag bytes -/
+theorem utf8_constants_from_source :
+    (∀ m ∈ Src.c_utf8_MAX_ONE_B, (utf8Bytes (m - 1)).length = 1 ∧ ∀ t ∈ Src.c_utf8_TAG_TWO_B, ∀ c ∈ Src.c_utf8_TAG_CONT, utf8Bytes m = [t + 2, c]) ∧
+    (∀ m ∈ Src.c_utf8_MAX_TWO_B, (utf8Bytes (m - 1)).length = 2 ∧ ∀ t ∈ Src.c_utf8_TAG_THREE_B, ∀ c ∈ Src.c_utf8_TAG_CONT, utf8Bytes m = [t, c + 32, c]) ∧
+    (∀ m ∈ Src.c_utf8_MAX_THREE_B, (utf8Bytes (m - 1)).length = 3 ∧ ∀ t ∈ Src.c_utf8_TAG_FOUR_B, ∀ c ∈ Src.c_utf8_TAG_CONT, utf8Bytes m = [t, c + 16, c, c]) ∧
+    Src.c_utf8_CONT_MASK = [63] := Pocket.utf8_constants_from_source
 
 end Pocket.C19
